@@ -558,9 +558,6 @@ func c20TagsOf(mode string, ops []string, seen map[string]bool) []string {
 	if mode == "k0" {
 		tags = append(tags, "kf:C20-cached-object-loses-key")
 	}
-	if has["R"] {
-		tags = append(tags, "kf:C20-stale-after-transition")
-	}
 	if has["GO"] {
 		tags = append(tags, "kf:C20-fill-races-put")
 	}
